@@ -42,9 +42,37 @@ package dataset
 //@   pure
 //@   ensures len(result) == 14
 
-// the per-version callback (strategy evaluation and batched flush) does not touch forEntity's iterator or loop variables
-//@ assumed (*CompactionWorker).forEntity$1
+// the per-version callback: the instruction the strategy returns is collected BEFORE the batched flush is considered (the
+// strategy buffers the change-log keys of the versions it deleted and hands them to whichever flush comes next: flushing
+// before collecting would delete a version's change-log entry one transaction ahead of its json key and of the
+// latest-pointer rewrite); the collected instructions are dropped only after a flush applied them; errors are returned.
+// Callers rely on: it does not touch forEntity's iterator or loop variables (frame taken on trust: they are not captured).
+//@ assumed (*compactionInstruction).append
 //@   pure
+//@ assumed (*compactionInstruction).reset
+//@   pure
+//@ assumed dataset.toEntity
+//@   pure
+//@ assumed (dataset.CompactionStrategy).eval
+//@   pure
+//@ unit (*CompactionWorker).forEntity$1
+//@   prop C12
+//@   frame-assumed preserves Elem.*, F.*, Map*, Cell.*, G.*
+//@   requires ops != nil && len(ops.RewriteKeys) == len(ops.RewriteValues)
+//@   ghost collectedG bool = false
+//@   ghost flushedG bool = false
+//@   ghost flushErrG iface
+//@   ensures [C12:flush-error-is-returned] flushedG ==> result == flushErrG
+//@   at call append#1 before
+//@     assert [C12:collected-instruction-is-the-one-the-strategy-returned] $arg1 == instr && $arg0 == ops
+//@     ghost collectedG := true
+//@   at call flushDeletes#1 before
+//@     assert [C12:instruction-collected-before-the-flush-that-applies-its-buffered-change-log-deletes] collectedG && !finalFlush
+//@   at call flushDeletes#1
+//@     ghost flushedG := true
+//@     ghost flushErrG := $result1
+//@   at call reset#1 before
+//@     assert [C12:collected-instructions-dropped-only-after-a-flush-applied-them] flushedG && reset
 
 //@ unit (*CompactionWorker).forEntity
 //@   prop C12
@@ -52,7 +80,7 @@ package dataset
 //@   ghost capturedG int = 0
 //@   ghost pendingKeyG slice
 //@   ghost pendingBytesG slice
-//@   requires c != nil && ops != nil
+//@   requires c != nil && ops != nil && len(ops.RewriteKeys) == len(ops.RewriteValues)
 //@   at call KeyCopy#1
 //@     ghost pendingKeyG := $result
 //@     ghost capturedG := capturedG + 1
